@@ -188,6 +188,75 @@ fn pats(ty: &Ty, depth: usize) -> Vec<Pat> {
   out
 }
 
+fn contains_or(p: &Pat) -> bool {
+  match p {
+    Pat::Or(_) => true,
+    Pat::Wild | Pat::Var(_) => false,
+    Pat::Variant(_, ps) | Pat::Product(_, ps) => ps.iter().any(contains_or),
+  }
+}
+
+/// Or-patterns whose alternatives share the head constructor and differ in the payload
+/// (`Y(T) | Y(F)`, `Some(T) | Some(F) | None`, `(T, _) | (F, T)`): the specialised matrix must keep
+/// every alternative, not one per head.
+fn same_head_or_patterns(ty: &Ty) -> Vec<Pat> {
+  let alphabet = |t: &Ty| -> Vec<Pat> {
+    let d = if t.variants().is_some() { 1 } else { 2 };
+    pats(t, d).into_iter().filter(|p| !contains_or(p)).collect()
+  };
+  let tuples = |payload: &[Ty]| -> Vec<Vec<Pat>> {
+    let mut acc: Vec<Vec<Pat>> = vec![vec![]];
+    for t in payload {
+      let sub = alphabet(t);
+      acc = acc.into_iter().flat_map(|p| sub.iter().map(move |s| { let mut q = p.clone(); q.push(s.clone()); q })).collect();
+    }
+    acc
+  };
+  let mut out = vec![];
+  if let Some(vs) = ty.variants() {
+    for (name, payload) in &vs {
+      if payload.is_empty() {
+        continue;
+      }
+      let ts = tuples(payload);
+      let mut pairs = vec![];
+      for i in 0..ts.len() {
+        for j in 0..ts.len() {
+          if i != j && (ts.len() <= 4 || i < j) {
+            pairs.push(vec![Pat::Variant(name, ts[i].clone()), Pat::Variant(name, ts[j].clone())]);
+          }
+        }
+      }
+      for pr in &pairs {
+        out.push(Pat::Or(pr.clone()));
+      }
+      // two same-head alternatives plus one alternative of every other variant
+      if pairs.len() <= 12 {
+        for pr in &pairs {
+          for (other, op) in &vs {
+            if other != name {
+              let mut alts = pr.clone();
+              alts.push(Pat::Variant(other, vec![Pat::Wild; op.len()]));
+              out.push(Pat::Or(alts.clone()));
+              alts.rotate_right(1);
+              out.push(Pat::Or(alts));
+            }
+          }
+        }
+      }
+    }
+  } else {
+    let comps = ty.components().unwrap();
+    let ts = tuples(&comps);
+    for i in 0..ts.len() {
+      for j in i + 1..ts.len() {
+        out.push(Pat::Or(vec![Pat::Product(ty.is_struct(), ts[i].clone()), Pat::Product(ty.is_struct(), ts[j].clone())]));
+      }
+    }
+  }
+  out
+}
+
 fn arm_patterns(ty: &Ty) -> Vec<Pat> {
   let depth = match ty {
     Ty::W | Ty::OptOptB2 => 3,
@@ -362,6 +431,31 @@ fn main() {
     for p in &ps {
       cases.push(Case { ty: ty.clone(), kind: Kind::Let(p.clone()) });
       cases.push(Case { ty: ty.clone(), kind: Kind::IfLet(p.clone()) });
+    }
+    // same-head or-patterns: alone (let / if-let / single arm) and in arm lists with shallow patterns
+    let same = same_head_or_patterns(ty);
+    space.insert(format!("same_head_or_patterns_for_{}", ty.text()), json!(same.len()));
+    let shallow: Vec<Pat> = pats(ty, 1);
+    let pool: Vec<&Pat> = same.iter().chain(shallow.iter()).collect();
+    for p in &same {
+      cases.push(Case { ty: ty.clone(), kind: Kind::Let(p.clone()) });
+      cases.push(Case { ty: ty.clone(), kind: Kind::IfLet(p.clone()) });
+      cases.push(Case { ty: ty.clone(), kind: Kind::Match(vec![p.clone()]) });
+    }
+    let third: Vec<Option<&Pat>> = if run.quick() { vec![None] } else { std::iter::once(None).chain(shallow.iter().map(Some)).collect() };
+    for (ai, a) in pool.iter().enumerate() {
+      for (bi, b) in pool.iter().enumerate() {
+        if ai >= same.len() && bi >= same.len() {
+          continue; // at least one same-head or-pattern
+        }
+        for c in &third {
+          let mut arms = vec![(*a).clone(), (*b).clone()];
+          if let Some(c) = c {
+            arms.push((*c).clone());
+          }
+          cases.push(Case { ty: ty.clone(), kind: Kind::Match(arms) });
+        }
+      }
     }
   }
   space.insert("total_cases".into(), json!(cases.len()));
